@@ -95,6 +95,15 @@ def CleanCalls (fuel cap : Nat) (P : Prog) (h : List Op) : Prop :=
   ∀ pre f a rest, h = pre ++ Op.call f a :: rest →
     ∃ v, evalS fuel P (after fuel cap P pre).srcs (after fuel cap P pre).maps [] (nodeOf P f a) = .ok v
 
+/-- at every `call` of the history the called node AND every node stored at that moment evaluate from
+scratch without panicking (the stored nodes are the ones the verification of dependencies may
+re-execute) -/
+def CleanStore (fuel cap : Nat) (P : Prog) (h : List Op) : Prop :=
+  ∀ pre f a rest, h = pre ++ Op.call f a :: rest →
+    (∃ v, evalS fuel P (after fuel cap P pre).srcs (after fuel cap P pre).maps [] (nodeOf P f a) = .ok v) ∧
+    ∀ n r, alookup (after fuel cap P pre).derived n = some r →
+      ∃ v, evalS fuel P (after fuel cap P pre).srcs (after fuel cap P pre).maps [] n = .ok v
+
 /-! ## program classes -/
 
 def Expr.noCall : Expr → Bool
